@@ -44,7 +44,7 @@ package round
 
 //@ func (*roundStartingStorage).Get
 //@   prop C40
-//@   requires wfRS(s) && held(s.mu) == 0
+//@   requires wfRS(s) && held(s.mu) == 0 && rheld(s.mu) == 0
 //@   ensures noFloor(s, round) ==> result == nil
 //@   ensures forall r int64 :: isFloor(s, round, r) ==> result == s.items[r]
 //@   modifies s.mu.$all
@@ -52,7 +52,7 @@ package round
 
 //@ func (*roundStartingStorage).FindRoundIndex
 //@   prop C40
-//@   requires wfRS(s) && held(s.mu) == 0
+//@   requires wfRS(s) && held(s.mu) == 0 && rheld(s.mu) == 0
 //@   ensures result == -1 <==> noFloor(s, round)
 //@   ensures result != -1 ==> 0 <= result && result < len(s.rounds) && s.rounds[result] <= round
 //@   ensures result != -1 && result + 1 < len(s.rounds) ==> s.rounds[result+1] > round
@@ -66,7 +66,7 @@ package round
 
 //@ func (*roundStartingStorage).GetLatest
 //@   prop C40
-//@   requires wfRS(s) && held(s.mu) == 0
+//@   requires wfRS(s) && held(s.mu) == 0 && rheld(s.mu) == 0
 //@   ensures len(s.rounds) == 0 ==> result == nil
 //@   ensures len(s.rounds) > 0 ==> result == s.items[s.rounds[len(s.rounds)-1]]
 //@   modifies s.mu.$all
@@ -74,7 +74,7 @@ package round
 
 //@ func (*roundStartingStorage).GetRound
 //@   prop C40
-//@   requires wfRS(s) && held(s.mu) == 0 && 0 <= i && i < len(s.rounds)
+//@   requires wfRS(s) && held(s.mu) == 0 && rheld(s.mu) == 0 && 0 <= i && i < len(s.rounds)
 //@   ensures result == s.rounds[i]
 //@   modifies s.mu.$all
 //@   lock-balanced s.mu
@@ -121,7 +121,6 @@ package round
 //@   loop 2 invariant forall k in 0..len(pruneRounds) :: old(s.rounds[k]) == pruneRounds[k]
 //@   loop 2 invariant -1 <= $idx && $idx < len(pruneRounds)
 //@   loop 2 invariant forall k in 0..$idx+1 :: !(pruneRounds[k] in s.items)
-//@   loop 2 invariant forall r int64 :: r in s.items ==> r > round || (exists k in $idx+1..len(pruneRounds) :: pruneRounds[k] == r)
 
 // ---------------------------------------------------------------- notarized blocks of a round (C35)
 
